@@ -245,11 +245,41 @@ type aggWrap struct {
 	inner *statsd.MetricAggregator
 	id    int
 	ids   *sync.Map
+	log   []wev // appended by the worker goroutine only; read after the run
 }
 
-func (a *aggWrap) ReceiveMap(mm *gostatsd.MetricMap) { a.inner.ReceiveMap(mm) }
-func (a *aggWrap) Flush(d time.Duration)             { a.inner.Flush(d) }
-func (a *aggWrap) Reset()                            { a.inner.Reset() }
+// wev is what a worker was seen doing (its own order is the real order: one goroutine).
+type wev struct {
+	Kind  byte // 'M' ReceiveMap of a split of batch B, 'C' command starts (Flush), 'E' command ends (Reset returned)
+	Batch int
+}
+
+// batchOf reads the batch a map came from off the timestamp of any of its entries: the
+// datagrams of batch b are stamped 1000 + 100 b + index.
+func batchOf(mm *gostatsd.MetricMap) int {
+	ts := gostatsd.Nanotime(-1)
+	mm.Counters.Each(func(_, _ string, x gostatsd.Counter) { ts = x.Timestamp })
+	mm.Timers.Each(func(_, _ string, x gostatsd.Timer) { ts = x.Timestamp })
+	mm.Gauges.Each(func(_, _ string, x gostatsd.Gauge) { ts = x.Timestamp })
+	mm.Sets.Each(func(_, _ string, x gostatsd.Set) { ts = x.Timestamp })
+	if ts < 1000 {
+		return -1
+	}
+	return int(ts-1000) / 100
+}
+
+func (a *aggWrap) ReceiveMap(mm *gostatsd.MetricMap) {
+	a.log = append(a.log, wev{'M', batchOf(mm)})
+	a.inner.ReceiveMap(mm)
+}
+func (a *aggWrap) Flush(d time.Duration) {
+	a.log = append(a.log, wev{'C', 0})
+	a.inner.Flush(d)
+}
+func (a *aggWrap) Reset() {
+	a.inner.Reset()
+	a.log = append(a.log, wev{'E', 0})
+}
 func (a *aggWrap) Process(f statsd.ProcessFunc) {
 	a.inner.Process(func(m *gostatsd.MetricMap) {
 		a.ids.Store(m, a.id)
@@ -257,15 +287,18 @@ func (a *aggWrap) Process(f statsd.ProcessFunc) {
 	})
 }
 
-// handlerWrap counts completed DispatchMetricMap calls (parser quiescence).
+// handlerWrap (one per parser) logs which batch its parser dispatches and counts completed
+// DispatchMetricMap calls (parser quiescence).
 type handlerWrap struct {
 	*statsd.BackendHandler
-	dispatched int64
+	dispatched *int64
+	log        []int // batches, appended by the parser goroutine only
 }
 
 func (h *handlerWrap) DispatchMetricMap(ctx context.Context, mm *gostatsd.MetricMap) {
+	h.log = append(h.log, batchOf(mm))
 	h.BackendHandler.DispatchMetricMap(ctx, mm)
-	atomic.AddInt64(&h.dispatched, 1)
+	atomic.AddInt64(h.dispatched, 1)
 }
 
 type captured struct {
@@ -483,6 +516,15 @@ func oentries(mm *gostatsd.MetricMap) string {
 
 func runSys(in input, rep uint64) hlib.Case {
 	c := hlib.Case{Input: in}
+	// the timestamps are the harness's: batch b, datagram d -> 1000 + 100 b + d (see batchOf)
+	stamped := make([][]dgram, len(in.Batches))
+	for b := range in.Batches {
+		stamped[b] = append([]dgram(nil), in.Batches[b]...)
+		for d := range stamped[b] {
+			stamped[b][d].TS = 1000 + 100*int64(b) + int64(d%100)
+		}
+	}
+	in.Batches = stamped
 	sent, wantDispatches, lines, accepted := sentAccount(in)
 
 	logrus.SetOutput(io.Discard)
@@ -496,15 +538,18 @@ func runSys(in input, rep uint64) hlib.Case {
 	backend := &capBackend{flushNo: &flushNo, ids: &ids}
 	backends := []gostatsd.Backend{backend}
 	nAgg := 0
+	var aggs []*aggWrap
 	exp := func(i int) time.Duration { return time.Duration(in.Exp[i]) }
 	af := statsd.AggregatorFactoryFunc(func() statsd.Aggregator {
 		a := statsd.NewMetricAggregator([]float64{90}, exp(0), exp(2), exp(3), exp(1), gostatsd.TimerSubtypes{}, uint32(in.HistLimit))
 		w := &aggWrap{inner: a, id: nAgg, ids: &ids}
+		aggs = append(aggs, w)
 		nAgg++
 		return w
 	})
 	bh := statsd.NewBackendHandler(backends, 4, in.Shards, in.Queue, af)
-	hw := &handlerWrap{BackendHandler: bh}
+	var dispatched int64
+	hws := make([]*handlerWrap, in.Parsers)
 	flusher := statsd.NewMetricFlusher(time.Second, 0, false, bh, backends)
 	statser := stats.NewNullStatser()
 	inCh := make(chan []*statsd.Datagram, in.InChan)
@@ -513,7 +558,8 @@ func runSys(in input, rep uint64) hlib.Case {
 	bg.Add(1)
 	go func() { defer bg.Done(); bh.Run(ctx) }()
 	for p := 0; p < in.Parsers; p++ {
-		dp := statsd.NewDatagramParser(inCh, "", false, 0, hw, 0, false, logger)
+		hws[p] = &handlerWrap{BackendHandler: bh, dispatched: &dispatched}
+		dp := statsd.NewDatagramParser(inCh, "", false, 0, hws[p], 0, false, logger)
 		bg.Add(1)
 		go func() { defer bg.Done(); dp.Run(ctx) }()
 	}
@@ -573,7 +619,7 @@ func runSys(in input, rep uint64) hlib.Case {
 		<-flusherDone
 		// quiescence: every batch parsed and dispatched, every queue drained (a worker that is
 		// still inside ReceiveMap finishes it before it can take the flush command)
-		for (atomic.LoadInt64(&hw.dispatched) < int64(wantDispatches) || bh.VerifC01Queued() > 0) && ctx.Err() == nil {
+		for (atomic.LoadInt64(&dispatched) < int64(wantDispatches) || bh.VerifC01Queued() > 0) && ctx.Err() == nil {
 			time.Sleep(20 * time.Microsecond)
 		}
 		// two final flushes: whatever a Reset failed to clear shows up again in the second one
@@ -587,7 +633,7 @@ func runSys(in input, rep uint64) hlib.Case {
 	case <-time.After(20 * time.Second):
 		atomic.StoreInt32(&wedged, 1)
 		c.Monitors = append(c.Monitors, fmt.Sprintf("pipeline wedged: no quiescence / flush did not return within 20s (dispatched %d of %d maps, %d queued)",
-			atomic.LoadInt64(&hw.dispatched), wantDispatches, bh.VerifC01Queued()))
+			atomic.LoadInt64(&dispatched), wantDispatches, bh.VerifC01Queued()))
 	}
 	cancel()
 	if atomic.LoadInt32(&wedged) == 0 {
@@ -688,7 +734,32 @@ func runSys(in input, rep uint64) hlib.Case {
 		}
 		fl[i] = "(" + hlib.Nat(cp.flush) + ", " + hlib.Nat(w) + ", " + oentries(cp.mm) + ")"
 	}
-	c.Coq = hlib.App("SysCase", hlib.Nat(in.Shards), hlib.List(bl), oracleTable(lines), hlib.List(fl))
+	// ---- the recorded run: per-goroutine logs and a proposed interleaving
+	plog := make([][]int, len(hws))
+	for p, h := range hws {
+		if h != nil {
+			plog[p] = h.log
+		}
+	}
+	wlog := make([][]wev, in.Shards)
+	for i := range wlog {
+		if i < len(aggs) {
+			wlog[i] = aggs[i].log
+		}
+	}
+	ticks := int(atomic.LoadInt64(&flushNo))
+	var witness []string
+	if atomic.LoadInt32(&wedged) == 0 { // the goroutines have stopped: the logs are stable
+		var stuck string
+		witness, stuck = buildWitness(in.Shards, in.Queue, plog, wlog, ticks)
+		if stuck != "" {
+			c.Monitors = append(c.Monitors, "the recorded per-goroutine trace is not a run of the configured pipeline (parsers "+
+				fmt.Sprint(in.Parsers)+", queue "+fmt.Sprint(in.Queue)+"): "+stuck)
+		}
+	} else {
+		plog, wlog = make([][]int, len(hws)), make([][]wev, in.Shards)
+	}
+	c.Coq = hlib.App("SysCase", hlib.Nat(in.Shards), hlib.List(bl), oracleTable(lines), hlib.List(fl), traceTerm(in, witness, plog, wlog, ticks))
 	expClass := "mixed"
 	if in.Exp == [4]int64{} {
 		expClass = "persist"
